@@ -50,8 +50,22 @@ def is_return_const(stmts, value):
     return len(stmts) == 1 and isinstance(stmts[0], ast.Return) and isinstance(stmts[0].value, ast.Constant) and stmts[0].value.value is value
 
 
+MUTATORS = ('setdefault', 'pop', 'popitem', 'update', 'clear', 'append', 'extend', 'insert', 'remove', 'add', 'discard', '__setitem__', '__delitem__')
+
+
+def has_side_effect(node):
+    """the expression calls a mutating method (`type_vars.setdefault(...)`) or contains an assignment expression"""
+    for n in ast.walk(node):
+        if isinstance(n, ast.NamedExpr):
+            return True
+        if isinstance(n, ast.Call) and isinstance(n.func, ast.Attribute) and n.func.attr in MUTATORS:
+            return True
+    return False
+
+
 def simple_alias(stmt):
-    return (isinstance(stmt, ast.Assign) and len(stmt.targets) == 1 and isinstance(stmt.targets[0], ast.Name))
+    """`name = <expression without side effects>`: the name may be replaced by the expression wherever it is read"""
+    return (isinstance(stmt, ast.Assign) and len(stmt.targets) == 1 and isinstance(stmt.targets[0], ast.Name) and not has_side_effect(stmt.value))
 
 
 def call_args(call, names):
@@ -111,8 +125,21 @@ def typevar_branch(tree):
 
     for idx, s in enumerate(body):
         last = idx == len(body) - 1
-        if simple_alias(s) and not (isinstance(s.targets[0], ast.Name) and False):
+        if simple_alias(s):
             aliases[s.targets[0].id] = _Inline(aliases).visit(copy.deepcopy(s.value))
+            continue
+        # `[x =] type_vars.setdefault(type_, type(obj))`: binds when unbound — the binding statement, wherever it stands
+        sd = s.value if isinstance(s, (ast.Assign, ast.Expr)) else None
+        if isinstance(sd, ast.Call) and isinstance(sd.func, ast.Attribute) and sd.func.attr == 'setdefault' and canon(sd.func.value, aliases) == 'type_vars' \
+                and len(sd.args) == 2 and not sd.keywords and canon(sd.args[0], aliases) == 'type_':
+            if canon(sd.args[1], aliases) not in ('type(obj)', 'obj.__class__'):
+                raise Skip('TypeVar branch: the binding is not type(obj)')
+            if 'bind' in facts['arms']:
+                raise Skip('TypeVar branch: two binding statements')
+            facts['arms'].append('bind')
+            facts['bindOnlyWhenUnbound'] = True
+            if isinstance(s, ast.Assign) and len(s.targets) == 1 and isinstance(s.targets[0], ast.Name):
+                aliases[s.targets[0].id] = ast.parse('type_vars[type_]', mode='eval').body      # what the name holds afterwards
             continue
         if isinstance(s, ast.Return):
             if not (last and isinstance(s.value, ast.Constant) and s.value.value is True):
@@ -122,6 +149,8 @@ def typevar_branch(tree):
         if isinstance(s, ast.Assign) and canon(s.targets[0], aliases) == 'type_vars[type_]':
             if canon(s.value, aliases) not in ('type(obj)', 'obj.__class__'):
                 raise Skip('TypeVar branch: the binding is not type(obj)')
+            if 'bind' in facts['arms']:
+                raise Skip('TypeVar branch: two binding statements')
             facts['arms'].append('bind')
             facts['bindOnlyWhenUnbound'] = False
             continue
@@ -234,6 +263,8 @@ def typevar_branch(tree):
             if not (len(s.body) == 1 and isinstance(s.body[0], ast.Assign) and canon(s.body[0].targets[0], aliases) == 'type_vars[type_]'
                     and canon(s.body[0].value, aliases) in ('type(obj)', 'obj.__class__') and not s.orelse):
                 raise Skip('TypeVar branch: guarded binding has an unknown shape')
+            if 'bind' in facts['arms']:
+                raise Skip('TypeVar branch: two binding statements')
             facts['arms'].append('bind')
             facts['bindOnlyWhenUnbound'] = True
             continue
@@ -334,6 +365,103 @@ def check_union(tree):
     return facts
 
 
+# ------------------------------------------------------------------ which dict the container checks hand on
+
+def dict_passed(node, aliases=None):
+    """'same' when the expression is the dict the function received (`type_vars`), 'copy' when it is a shallow copy of it"""
+    t = canon(node, aliases)
+    if t == 'type_vars':
+        return 'same'
+    if t in ('dict(type_vars)', 'type_vars.copy()', '{**type_vars}', 'copy(type_vars)', 'copy.copy(type_vars)', 'dict(**type_vars)', 'dict(type_vars.items())'):
+        return 'copy'
+    raise Skip(f'a container check hands `{t}` to the check of its elements')
+
+
+def element_calls(node):
+    """the `_is_instance(...)` calls inside the element expression of a comprehension"""
+    return [n for n in ast.walk(node) if isinstance(n, ast.Call) and isinstance(n.func, ast.Name) and n.func.id == '_is_instance']
+
+
+def loop_pass(call, want_fn, what):
+    """`all(<generator over the elements>)` / `any([...])`: (which dict the element checks receive, is the comprehension a list)"""
+    if not (isinstance(call, ast.Call) and isinstance(call.func, ast.Name) and call.func.id == want_fn and len(call.args) == 1 and not call.keywords
+            and isinstance(call.args[0], (ast.GeneratorExp, ast.ListComp)) and len(call.args[0].generators) == 1 and not call.args[0].generators[0].ifs):
+        raise Skip(f'{what}: not `{want_fn}(<one comprehension over the elements>)`')
+    calls = element_calls(call.args[0].elt)
+    if not calls:
+        raise Skip(f'{what}: no element check in the comprehension')
+    passes = set()
+    for c in calls:
+        a = call_args(c, IS_INSTANCE_PARAMS)
+        if 'type_vars' not in a:
+            raise Skip(f'{what}: an element check is not handed a binding dict')
+        passes.add(dict_passed(a['type_vars']))
+    if len(passes) != 1:
+        raise Skip(f'{what}: element checks are handed different dicts')
+    return passes.pop(), isinstance(call.args[0], ast.ListComp)
+
+
+def returns_of(fn):
+    return [n for n in ast.walk(fn) if isinstance(n, ast.Return) and n.value is not None]
+
+
+def container_threading(tree):
+    facts = {}
+    # List / Set / Sequence / ...: the last return of _instancecheck_iterable
+    it = find_func(tree, '_instancecheck_iterable')
+    rs = [r for r in returns_of(it) if isinstance(r.value, ast.Call)]
+    if len(rs) != 1:
+        raise Skip('_instancecheck_iterable: not exactly one loop over the elements')
+    facts['iterable'], eager = loop_pass(rs[0].value, 'all', '_instancecheck_iterable')
+    if eager:
+        raise Skip('_instancecheck_iterable: `all([...])` evaluates every element (not modelled)')
+    iv = find_func(tree, '_instancecheck_items_view')
+    rs = [r for r in returns_of(iv) if isinstance(r.value, ast.Call)]
+    if len(rs) != 1:
+        raise Skip('_instancecheck_items_view: not exactly one loop over the items')
+    facts['mapping'], eager = loop_pass(rs[0].value, 'all', '_instancecheck_items_view')
+    elt = rs[0].value.args[0].elt
+    if eager or not (isinstance(elt, ast.BoolOp) and isinstance(elt.op, ast.And) and len(elt.values) == 2 and all(len(element_calls(v)) == 1 for v in elt.values)):
+        raise Skip('_instancecheck_items_view: not `all(check(key) and check(val) for key, val in items)`')
+    tp = find_func(tree, '_instancecheck_tuple')
+    body = [s for s in tp.body if not (isinstance(s, ast.Expr) and isinstance(s.value, ast.Constant))]
+    ell = [s for s in body if isinstance(s, ast.If) and canon(s.test) == 'Ellipsis in type_args']
+    if not (len(ell) == 1 and len(ell[0].body) == 1 and isinstance(ell[0].body[0], ast.Return) and not ell[0].orelse and isinstance(body[-1], ast.Return)):
+        raise Skip('_instancecheck_tuple: unknown shape')
+    facts['tupleVar'], e1 = loop_pass(ell[0].body[0].value, 'all', '_instancecheck_tuple (Tuple[x, ...])')
+    facts['tuple'], e2 = loop_pass(body[-1].value, 'all', '_instancecheck_tuple')
+    if e1 or e2:
+        raise Skip('_instancecheck_tuple: `all([...])` evaluates every element (not modelled)')
+    if not (canon(body[-1].value.args[0].generators[0].iter) in ('zip(tup, type_args)',)):
+        raise Skip('_instancecheck_tuple: the elements are not zipped with the type arguments')
+    # _check_union: any([...]) over the non-TypeVar members
+    cu = find_func(tree, '_check_union')
+    anys = [s.value for s in cu.body if isinstance(s, ast.Assign) and isinstance(s.value, ast.Call) and isinstance(s.value.func, ast.Name) and s.value.func.id == 'any']
+    if len(anys) != 1:
+        raise Skip('_check_union: `any(...)` over the non-TypeVar members not found')
+    facts['unionMembers'], facts['unionEager'] = loop_pass(anys[0], 'any', '_check_union')
+    # the way down: _is_instance -> validator(obj, type_args, type_vars, context); mapping -> items view; union -> _check_union
+    down = set()
+    isi = find_func(tree, '_is_instance')
+    for n in ast.walk(isi):
+        if isinstance(n, ast.Call) and isinstance(n.func, ast.Name) and n.func.id == 'validator':
+            a = call_args(n, ['obj', 'type_args', 'type_vars', 'context'])
+            if 'type_vars' not in a:
+                raise Skip('_is_instance: a container checker is not handed the binding dict')
+            down.add(dict_passed(a['type_vars']))
+    if not down:
+        raise Skip('_is_instance: no call of a container checker found')
+    for fname, callee, names in (('_instancecheck_mapping', '_instancecheck_items_view', ['items_view', 'type_args', 'type_vars', 'context']),
+                                 ('_instancecheck_union', '_check_union', ['value', 'type_args', 'type_vars', 'context'])):
+        fn = find_func(tree, fname)
+        cs = [n for n in ast.walk(fn) if isinstance(n, ast.Call) and isinstance(n.func, ast.Name) and n.func.id == callee]
+        if len(cs) != 1 or 'type_vars' not in call_args(cs[0], names):
+            raise Skip(f'{fname}: does not hand the binding dict to {callee}')
+        down.add(dict_passed(call_args(cs[0], names)['type_vars']))
+    facts['dispatch'] = 'same' if down == {'same'} else 'copy'
+    return facts
+
+
 # ------------------------------------------------------------------ FunctionCall
 
 def function_call(tree):
@@ -400,7 +528,69 @@ def function_call(tree):
             wrapper_resolved = got == 'self.type_vars'
     if wrapper_resolved is None:
         raise Skip('FunctionCall: no GeneratorWrapper(...) call found')
-    return {'fresh': fresh, 'switch': switch, 'once': once, 'wrapper': wrapper_resolved}
+    return {'fresh': fresh, 'switch': switch, 'once': once, 'wrapper': wrapper_resolved, 'kwfilter': kwargs_filter(tree, init)}
+
+
+def kwargs_filter(tree, init):
+    """which keyword arguments `_check_types_kwargs` matches against the annotation of `**kwargs`: `not_yet_check_kwargs` is
+    `{k: v for k, v in self._kwargs.items() if k not in <names>}`; <names> is the list the loop over the NAMED parameters fills
+    (`visitedNamed`), the names of the signature (`signatureNames`: they include the names of the `*` / `**` parameters), or absent"""
+    prop = find_func(tree, 'not_yet_check_kwargs', cls='FunctionCall')
+    body = [s for s in prop.body if not (isinstance(s, ast.Expr) and isinstance(s.value, ast.Constant))]
+    if not (len(body) == 1 and isinstance(body[0], ast.Return) and isinstance(body[0].value, ast.DictComp)):
+        raise Skip('FunctionCall.not_yet_check_kwargs: not a single dict comprehension')
+    dc = body[0].value
+    g = dc.generators
+    if not (len(g) == 1 and isinstance(g[0].target, ast.Tuple) and len(g[0].target.elts) == 2 and canon(g[0].iter) in ('self._kwargs.items()', 'self.kwargs.items()')
+            and canon(dc.key) == canon(g[0].target.elts[0]) and canon(dc.value) == canon(g[0].target.elts[1])):
+        raise Skip('FunctionCall.not_yet_check_kwargs: does not run over the keyword arguments of the call')
+    # `_check_types_kwargs` must check exactly these
+    ck = find_func(tree, '_check_types_kwargs', cls='FunctionCall')
+    loops = [n for n in ast.walk(ck) if isinstance(n, ast.For)]
+    if not (len(loops) == 1 and canon(loops[0].iter) == 'self.not_yet_check_kwargs'):
+        raise Skip('FunctionCall._check_types_kwargs: does not run over self.not_yet_check_kwargs')
+    if not g[0].ifs:
+        return 'everyKeyword'
+    if len(g[0].ifs) != 1:
+        raise Skip('FunctionCall.not_yet_check_kwargs: several filters')
+    neg, t = strip_not(g[0].ifs[0])
+    if not (neg and isinstance(t, ast.Compare) and len(t.ops) == 1 and isinstance(t.ops[0], ast.In) and canon(t.left) == canon(dc.key)):
+        raise Skip('FunctionCall.not_yet_check_kwargs: unknown filter')
+    names = canon(t.comparators[0])
+    if names in ('self._params_without_self', 'self.params_without_self', 'self.func.signature.parameters', 'self._func.signature.parameters'):
+        return 'signatureNames'
+    if not (names.startswith('self.') and names[5:].isidentifier()):
+        raise Skip('FunctionCall.not_yet_check_kwargs: filters by something else than a list kept on the call')
+    # the list starts empty per call and receives exactly the keys the loop over the named parameters visits
+    if not any(isinstance(s_, ast.Assign) and canon(s_.targets[0]) == names and canon(s_.value) in ('[]', 'list()', 'set()') for s_ in init.body):
+        raise Skip('FunctionCall.__init__: the list of checked keywords does not start empty per call')
+    writers = []
+    cls = [n for n in ast.walk(tree) if isinstance(n, ast.ClassDef) and n.name == 'FunctionCall'][0]
+    for fn in cls.body:
+        if isinstance(fn, (ast.FunctionDef, ast.AsyncFunctionDef)):
+            for n in ast.walk(fn):
+                if isinstance(n, ast.Attribute) and canon(n) == names and not (isinstance(n.ctx, ast.Load) and fn.name in ('not_yet_check_kwargs',)):
+                    writers.append(fn.name)
+    if set(writers) - {'__init__', '_check_type_param'}:
+        raise Skip('FunctionCall: the list of checked keywords is touched outside _check_type_param')
+    cp = find_func(tree, '_check_type_param', cls='FunctionCall')
+    loop = [s_ for s_ in cp.body if isinstance(s_, ast.For)]
+    if not (len(loop) == 1 and canon(loop[0].iter) == 'params.items()' and isinstance(loop[0].target, ast.Tuple) and loop[0].body
+            and canon(loop[0].body[0]) in (f'{names}.append({canon(loop[0].target.elts[0])})', f'{names}.add({canon(loop[0].target.elts[0])})')):
+        raise Skip('FunctionCall._check_type_param: the visited key is not recorded first thing in the loop')
+    # ... and that loop is handed the named parameters only
+    ca = find_func(tree, '_check_types_of_arguments', cls='FunctionCall')
+    al = {}
+    handed = None
+    for s_ in ca.body:
+        if simple_alias(s_):
+            al[s_.targets[0].id] = s_.value
+        for n in ast.walk(s_):
+            if isinstance(n, ast.Call) and canon(n.func) == 'self._check_type_param':
+                handed = canon(call_args(n, ['params']).get('params', ast.Constant(0)), al)
+    if handed != "{k: v for k, v in self.params_without_self.items() if not str(v).startswith('*')}":
+        raise Skip('FunctionCall._check_types_of_arguments: _check_type_param is not handed the named parameters')
+    return 'visitedNamed'
 
 
 # ------------------------------------------------------------------ pedantic_class accessor
@@ -506,25 +696,73 @@ def accessor(tree):
 
 
 def generics_from_orig_class(tree):
+    """(True, where the type parameters of the class are taken from): `firstOrigBase` — the type arguments of `__orig_bases__[0]`;
+    `genericEntry` — those of the first `Generic[...]` entry of `__orig_bases__`; `parameters` — `type(instance).__parameters__`"""
     fn = find_func(tree, 'check_instance_of_generic_class_and_get_type_vars')
     body = [s for s in fn.body if not (isinstance(s, ast.Expr) and isinstance(s.value, ast.Constant))]
-    txt = [canon(s) for s in body]
-    want = ['type_vars = dict()', '_assert_constructor_called_with_generics(instance=instance)',
-            "if not hasattr(instance, '__orig_class__'):\n    return type_vars",
-            'type_variables = get_type_arguments(type(instance).__orig_bases__[0])', 'actual_types = get_type_arguments(instance.__orig_class__)',
+    head = ['type_vars = dict()', '_assert_constructor_called_with_generics(instance=instance)',
+            "if not hasattr(instance, '__orig_class__'):\n    return type_vars"]
+    tail = ['actual_types = get_type_arguments(instance.__orig_class__)',
             'for i, type_var in enumerate(type_variables):\n    type_vars[type_var] = actual_types[i]', 'return type_vars']
-    if txt != want:
+    txt = [canon(s) for s in body]
+    if txt[:3] != head or txt[-3:] != tail:
         raise Skip('check_instance_of_generic_class_and_get_type_vars: body differs from the modelled one')
-    return True
+    mid = body[3:-3]
+    aliases = {}
+    while len(mid) > 1 and simple_alias(mid[0]):
+        aliases[mid[0].targets[0].id] = _Inline(aliases).visit(copy.deepcopy(mid[0].value))
+        mid = mid[1:]
+    if not (len(mid) == 1 and simple_alias(mid[0]) and mid[0].targets[0].id == 'type_variables'):
+        raise Skip('check_instance_of_generic_class_and_get_type_vars: `type_variables = ...` not found')
+    v = canon(mid[0].value, aliases)
+    OB = 'type(instance).__orig_bases__'
+    gen_entries = [f"[{x} for {x} in {OB} if getattr({x}, '__origin__', None) is Generic]" for x in ('base', 'b', 'x')] + \
+                  [f"[{x} for {x} in {OB} if get_origin({x}) is Generic]" for x in ('base', 'b', 'x')]
+    if v in (f'get_type_arguments({OB}[0])', f'get_type_arguments(cls={OB}[0])'):
+        return True, 'firstOrigBase'
+    if v in [f'get_type_arguments({g}[0])' for g in gen_entries]:
+        return True, 'genericEntry'
+    if v in ('type(instance).__parameters__', 'instance.__class__.__parameters__', "getattr(type(instance), '__parameters__', ())"):
+        return True, 'parameters'
+    raise Skip('check_instance_of_generic_class_and_get_type_vars: the type parameters are taken from an unknown place')
+
+
+def generic_test(tree):
+    """what makes an instance one of a generic class for the accessor: `directBase` - `Generic in instance.__class__.__bases__`;
+    `directBaseOrParameters` - that, or the class still has type parameters (`__parameters__`); `parameters` - the latter alone"""
+    fn = find_func(tree, 'is_instance_of_generic_class')
+    body = [s for s in fn.body if not (isinstance(s, ast.Expr) and isinstance(s.value, ast.Constant))]
+    aliases = {}
+    while len(body) > 1 and simple_alias(body[0]):
+        aliases[body[0].targets[0].id] = _Inline(aliases).visit(copy.deepcopy(body[0].value))
+        body = body[1:]
+    if not (len(body) == 1 and isinstance(body[0], ast.Return)):
+        raise Skip('is_instance_of_generic_class: unknown shape')
+    C = ('instance.__class__', 'type(instance)')
+    direct = [f'Generic in {c}.__bases__' for c in C]
+    params = [f"bool(getattr({c}, '__parameters__', ()))" for c in C] + [f'bool({c}.__parameters__)' for c in C] + [f'len({c}.__parameters__) > 0' for c in C]
+    v = body[0].value
+    parts = [canon(x, aliases) for x in v.values] if isinstance(v, ast.BoolOp) and isinstance(v.op, ast.Or) else [canon(v, aliases)]
+    kinds = set()
+    for t in parts:
+        if t in direct:
+            kinds.add('d')
+        elif t in params:
+            kinds.add('p')
+        else:
+            raise Skip(f'is_instance_of_generic_class: unknown test `{t}`')
+    return {'d': 'directBase', 'p': 'parameters', 'dp': 'directBaseOrParameters'}[''.join(sorted(kinds))]
 
 
 def gen_typevars(repo):
     ct = ast.parse(src(repo, CT))
     tvb = typevar_branch(ct)
     un = check_union(ct)
+    th = container_threading(ct)
     fc = function_call(ast.parse(src(repo, FC)))
     ac = accessor(ast.parse(src(repo, CD)))
     gc = generics_from_orig_class(ast.parse(src(repo, GC)))
+    gt = generic_test(ast.parse(src(repo, GC)))
     arms = ', '.join('.' + a for a in tvb['arms'])
     merge = ', '.join('.' + m for m in ac['merge'])
     return HEADER.format(rel=', '.join([CT, FC, CD, GC])) + f'''namespace PedVerif.Gen.TypeVars
@@ -562,6 +800,27 @@ def unionNoUnboundRejects : Bool := {lean_bool(un['noUnboundRejects'])}
 /-- `if len(args_type_vars_unbounded) == 1: return _is_instance(value, that one)`; several unbound ones: `return True` -/
 def unionSingleUnboundChecked : Bool := {lean_bool(un['singleUnboundChecked'])}
 
+/-- which binding dict a container check hands to the check of an element / a member -/
+inductive Pass where
+  | same   -- `type_vars=type_vars`: the dict it received — the bindings made by one element are seen by the next, and by the caller
+  | copy   -- a copy (`dict(type_vars)`, `type_vars.copy()`, `{{**type_vars}}`): what an element binds is lost
+deriving DecidableEq, Repr
+/-- `_instancecheck_iterable` (List, Set, Sequence, ...): `all(_is_instance(val, type_, type_vars=type_vars, ...) for val in iterable)`, a lazy `all` -/
+def iterablePass : Pass := .{th['iterable']}
+/-- `_instancecheck_mapping` → `_instancecheck_items_view`: `all(_is_instance(key, ...) and _is_instance(val, ...) for key, val in items_view)` -/
+def mappingPass : Pass := .{th['mapping']}
+/-- `_instancecheck_tuple`, `Tuple[x, ...]`: `all(_is_instance(val, type_args[0], ...) for val in tup)` -/
+def tupleVarPass : Pass := .{th['tupleVar']}
+/-- `_instancecheck_tuple`, fixed length: `all(_is_instance(val, type_, ...) for val, type_ in zip(tup, type_args))` -/
+def tuplePass : Pass := .{th['tuple']}
+/-- `_check_union`: `any([_is_instance(value, typ, type_vars=type_vars, ...) for typ in args_non_type_vars])` -/
+def unionMembersPass : Pass := .{th['unionMembers']}
+/-- ... a LIST comprehension inside `any`: every non-TypeVar member is evaluated (a generator would stop at the first True) -/
+def unionMembersEager : Bool := {lean_bool(th['unionEager'])}
+/-- `_is_instance` hands the dict it received to the container checker (`validator(obj, type_args, type_vars, context)`), and
+    `_instancecheck_mapping` / `_instancecheck_union` hand it on to `_instancecheck_items_view` / `_check_union` -/
+def dispatchPass : Pass := .{th['dispatch']}
+
 /-- `FunctionCall.__init__`: `self._type_vars = dict()` — a fresh map per call -/
 def perCallFreshMap : Bool := {lean_bool(fc['fresh'])}
 /-- `FunctionCall.type_vars`: `if hasattr(self._instance, TYPE_VAR_METHOD_NAME):` switches to the per-instance accessor -/
@@ -586,7 +845,29 @@ def nonGenericFresh : Bool := {lean_bool(ac['nonGenericFresh'])}
 /-- the attribute is read from and written to the instance (`self`), not the class -/
 def storeOnInstance : Bool := {lean_bool(ac['storeOnInstance'])}
 /-- `check_instance_of_generic_class_and_get_type_vars`: `{{}}` without `__orig_class__`, else parameters zipped with arguments in order -/
-def genericsFromOrigClass : Bool := {lean_bool(gc)}
+def genericsFromOrigClass : Bool := {lean_bool(gc[0])}
+/-- ... and where the parameters are taken from -/
+inductive ParamSrc where
+  | firstOrigBase   -- `get_type_arguments(type(instance).__orig_bases__[0])`
+  | genericEntry    -- the type arguments of the first `Generic[...]` entry of `__orig_bases__` (IndexError when there is none)
+  | parameters      -- `type(instance).__parameters__`
+deriving DecidableEq, Repr
+def genericParamsFrom : ParamSrc := .{gc[1]}
+/-- `is_instance_of_generic_class`: what makes an instance one of a generic class for the accessor -/
+inductive GenericTest where
+  | directBase               -- `Generic in instance.__class__.__bases__` (direct bases only)
+  | directBaseOrParameters   -- ... or the class still has type parameters (`__parameters__`)
+  | parameters               -- the class has type parameters
+deriving DecidableEq, Repr
+def genericTest : GenericTest := .{gt}
+
+/-- which keyword arguments of a call `_check_types_kwargs` matches against the annotation of `**kwargs` -/
+inductive KwFilter where
+  | visitedNamed    -- all but the keys the loop over the NAMED parameters has visited (`_already_checked_kwargs`, filled per call)
+  | signatureNames  -- all but the names of the signature — these include the names of the `*args` / `**kwargs` parameters themselves
+  | everyKeyword    -- no filter
+deriving DecidableEq, Repr
+def kwargsFilter : KwFilter := .{fc['kwfilter']}
 
 end PedVerif.Gen.TypeVars
 '''
